@@ -215,8 +215,13 @@ def run(ctx, R, tier):
     resume_is_immediate(F, R)
     finite_length(F, R)
     # fades, start delays and the resume countdown advance by the time of the slice the sound is handed: it is this chunk's slice
-    from .c02 import ibs
+    from .c02 import ibs, once as every_child_every_chunk
     ibs(F, R)
+    # every live sound (also one on a track nested under an otherwise empty track) is processed in every chunk: its fades advance
+    every_child_every_chunk(F, R)
+    # every sound that is Stopped is unloaded at the next callback, however many stop at once
+    from .c08 import recycle
+    recycle(F, R)
     # a clock start time becomes Immediate exactly when the clock says Now (the C05 rule)
     from .c05 import start_time_rule
     start_time_rule(F, R)
